@@ -19,6 +19,12 @@ from the worksharing induction variable is assumed, read/write conflicts are not
                 thread id
  tid-scratch    a heap block of this function that threads split by thread id is sized by the thread
                 count
+ barrier-order  two accesses to the same flat shared object (array of numbers, scalar variable) made under
+                different partitions -- thread id vs worksharing loop, two different worksharing loops that
+                are not both schedule(static), single/master vs everybody -- at least one being a store, are
+                separated by a barrier on every path (explicit, or implied at the END of for/sections/single
+                without nowait; none at the entry of for/single, none for master/critical)
+ block-clip     `B = (N + T - 1) / T; ip = B * t`: the block bound is clipped against N on every value path
  fp-table       calls through function pointers are resolved (targets read off the Python ctypes
                 call sites and C assignments), so that callee write summaries apply
  callback-global C functions handed to a parallel driver as callbacks write no global / static
@@ -80,7 +86,17 @@ def build(chk):
             raise core.AnalysisError("anchored file %s vanished" % a)
         if a not in cfacts.C_FILES:
             raise core.AnalysisError("anchored file %s is not parsed (sa.cfacts.C_FILES)" % a)
-    tus = cfacts.load_all(tree, cfacts.C_FILES)
+    # parse in parallel only when the digest-keyed cache is cold: forking a worker pool per run is the
+    # dominant cost of the mutation self-test otherwise (one mutated file = one clang run)
+    cold = 0
+    for rel in cfacts.C_FILES:
+        full = LIBP + rel
+        if full in tree.overlay:
+            continue
+        cp = os.path.join(cfacts.CACHE, "%s.%s.json" % (rel.replace("/", "_"), cfacts._digest(tree, rel, tree.read(full))))
+        if not os.path.exists(cp):
+            cold += 1
+    tus = cfacts.load_all(tree, cfacts.C_FILES, jobs=16 if cold > 1 else 1)
     chk.count("C translation units", len(tus))
     defined = set()
     for tu in tus.values():
@@ -285,6 +301,43 @@ def report_regions(chk, regions, tag=""):
             chk.violation("ws-uniform", rel, r.func.name, "illegal nesting: " + why, r.tu.line_of(node),
                           "construct at line %d: %s -- not every thread of the team can encounter it"
                           % (r.tu.line_of(node), why), instance="%s: nesting %s" % (rid, why))
+        for kind, obj, wbase, rtext in r.barrier_deps:
+            chk.ok("barrier-order", "%s: %s of %s (%s) ordered after/before the store through %s" % (
+                rid, "read" if kind == "read" else "second store", obj, _short(rtext, 50), wbase),
+                   detail="different partitions, separated by a barrier on every path")
+        bgroups = {}
+        for c in r.barrier_conflicts:
+            bgroups.setdefault(c["object"], []).append(c)
+        for obj, cs in sorted(bgroups.items()):
+            cs = sorted(cs, key=lambda c: (c["wline"], c["rline"]))
+            c0 = cs[0]
+            pairs = "; ".join(
+                "`%s` (line %d, %s) vs %s `%s` (line %d, %s)" % (
+                    _short(c["wtext"], 60), c["wline"],
+                    ("partitioned by " + c["wpart"]) if not c["wpart"].startswith("no partition") else c["wpart"],
+                    "read" if c["kind"] == "read" else "store", _short(c["rtext"], 50), c["rline"],
+                    ("partitioned by " + c["rpart"]) if not c["rpart"].startswith("no partition") else c["rpart"])
+                for c in cs[:4])
+            chk.violation(
+                "barrier-order", rel, r.func.name, "no barrier between differently partitioned accesses to " + obj,
+                c0["rline"],
+                "parallel region at line %d%s: %s is written and then %s by (potentially) a different thread "
+                "without a barrier in between: %s. Expected an `omp barrier`, or the implied barrier at the end of "
+                "an `omp for`/`sections`/`single` without `nowait`, on every path between the two (note: `omp for` "
+                "and `omp single` have no barrier at their entry; `master`/`critical` have none at all)" % (
+                    r.line, (" " + tag) if tag else "", obj,
+                    "read" if c0["kind"] == "read" else "written again", pairs),
+                instance="%s: barrier-order %s" % (rid, obj))
+        for ok, desc, node, etext in r.block_clips:
+            if ok:
+                chk.ok("block-clip", desc, detail="every value path is clipped against the total")
+            else:
+                chk.violation("block-clip", rel, r.func.name, desc.split(": ", 1)[1], r.tu.line_of(node),
+                              "%s: the value `%s` has a path on which the block keeps its full length without any "
+                              "comparison against the total, but with a ceil split the block of a thread other than "
+                              "the last already sticks out whenever (T-1)*ceil(N/T) > N (e.g. N=5, T=4; N=130, T=16): "
+                              "expected MIN(ip + B, N) - ip, MIN(B, N - ip) or an `if` clipping against N" % (
+                                  desc, etext), instance=desc)
         for ok, desc, node in r.tid_scratch:
             if ok:
                 chk.ok("tid-scratch", desc)
@@ -370,6 +423,9 @@ def analyse(chk):
                              "id, protected, a reduction, or a named exception")
     chk.rule("ws-uniform", "worksharing loops, single and barrier are reached by all threads of the team")
     chk.rule("tid-scratch", "buffers split by thread id are sized by the thread count")
+    chk.rule("block-clip", "blocks of a ceil split by the thread count are clipped against the total on every path")
+    chk.rule("barrier-order", "accesses to one shared object under different partitions (thread id / worksharing "
+                              "loop / single) are separated by a barrier on every path")
     chk.rule("fp-table", "function-pointer calls resolved through the table read off the Python call sites")
     chk.rule("callback-global", "callbacks run by parallel drivers write no global or static variable")
     tus, prog, table, defined = build(chk)
@@ -382,6 +438,9 @@ def analyse(chk):
     chk.floor("shared-store", 300, "346 stores/output arguments reaching shared memory on the pinned tree")
     chk.floor("ws-uniform", 105, "88 omp for + 25 parallel for + 1 single + 2 barriers")
     chk.floor("tid-scratch", 1, "contract_grad_terms_parallel: tmp_priv")
+    chk.floor("block-clip", 6, "6 SDMXcontract_ao_to_bas* routines + contract_grad_terms_parallel")
+    chk.floor("barrier-order", 6, "10 ordered dependences on the pinned tree (contract_grad_terms_parallel, "
+                                  "compute_num_spline_contribs, weight_symm_gpts, cider_coefs_gto_*)")
     chk.floor("fp-table", 11, "7 Python rows + 6 indirect C call sites")
     chk.floor("callback-global", 14, "16 libcider callbacks passed to SDMXeval_*_loop / GTOeval_sph_drv")
     chk.extra["named_exceptions"] = {"%s:%s" % k: v for k, v in EXCEPTIONS.items()}
@@ -401,15 +460,22 @@ def analyse(chk):
         "BLAS/LAPACK/libc/FFTW/libxc output arguments come from a frozen table; an external function with "
         "pointer arguments that is not in the table and is called in a region is an analysis error",
         "callbacks passed to PySCF's own driver (GTOeval_sph_drv) are assumed to run concurrently",
+        "barrier-order: only flat objects (arrays of numbers reached through a single-level pointer parameter, "
+        "heap blocks, scalar variables) and accesses written in the region's own text or through callee write "
+        "summaries; two accesses under different partitions of one object are assumed to overlap unless one is a "
+        "fixed element; serial loops run at least once; a barrier on any branch of an `if` counts as ordering what "
+        "follows; two different worksharing loops are the same partition only if both are schedule(static)",
+        "block-clip: only the idiom B = (N + T - 1) / T with T derived from omp_get_num_threads()/"
+        "omp_get_max_threads(); a value path counts as clipped as soon as one of its guards mentions N",
     ]
     chk.not_decided += [
         "floating-point reassociation inside BLAS and inside omp reductions",
         "injectivity of index maps (two iterations writing the same element through run-time tables)",
-        "read/write conflicts (one thread reading what another partitioned store writes; missing barriers)",
-        "thread-count-dependent partition arithmetic (block sizes not dividing the problem size) beyond the "
-        "tid-scratch sizing rule",
-        "nested parallelism, tasks, sections, simd, atomics on wrong granularity (none occur today; any new "
-        "OpenMP construct kind is an analysis error)",
+        "read/write conflicts through callee *reads*, through struct fields / pointer tables (collapsed objects), "
+        "or between iterations of the same worksharing loop (stencils)",
+        "partition arithmetic other than the ceil-split idiom (block-clip) and the tid-scratch sizing rule",
+        "nested parallelism, tasks, target/teams (analysis error if they appear); conflicts between two "
+        "different `section`s; atomics on the wrong granularity",
     ]
 
 
@@ -456,7 +522,6 @@ def mutants(tree):
     FL = LIBP + "mod_cider/frac_lapl.c"
     MU = LIBP + "mod_cider/model_utils.c"
     NR = LIBP + "numint_cider/nr_numint.c"
-    FF = LIBP + "fft_wrapper/cider_fft.c"
     m = []
     m.append(Mutant("delete `#pragma omp for` (cider_coefs_vk1_gq)", CO, expect="shared-store",
                     fn=_in_func(CO, "cider_coefs_vk1_gq", "#pragma omp for\n", "")))
@@ -517,6 +582,26 @@ def mutants(tree):
                     expect="ws-uniform",
                     fn=_in_func(CO, "cider_coefs_vk1_qg", "for (a = 0; a < nalpha; a++) {",
                                 "for (a = omp_get_thread_num(); a < nalpha; a++) {")))
+    m.append(Mutant("needed barrier removed between per-thread rows and the loop summing all rows", CI,
+                    expect="barrier-order",
+                    old="#pragma omp barrier\n#pragma omp for reduction(+ : total)", new="#pragma omp for reduction(+ : total)"))
+    m.append(Mutant("`omp single` -> `omp master` and its barrier dropped before the dependent read of tmp_priv", CI,
+                    expect="barrier-order",
+                    old="#pragma omp single\n        { tmp_priv = (double *)calloc(nthreads * natm, sizeof(double)); }\n"
+                        "#pragma omp barrier\n",
+                    new="#pragma omp master\n        { tmp_priv = (double *)calloc(nthreads * natm, sizeof(double)); }\n"))
+    m.append(Mutant("`nowait` on the zeroing loop whose array the next worksharing loop accumulates into", CI,
+                    expect="barrier-order",
+                    fn=_in_func(CI, "compute_num_spline_contribs", "#pragma omp for\n", "#pragma omp for nowait\n")))
+    m.append(Mutant("`nowait` on the first of two worksharing loops updating the same array (weight_symm_gpts)", PB,
+                    expect="barrier-order",
+                    fn=_in_func(PB, "weight_symm_gpts", "#pragma omp for\n", "#pragma omp for nowait\n")))
+    m.append(Mutant("block length clipped only for the last thread (SDMXcontract_ao_to_bas_bwd)", FS,
+                    expect="block-clip",
+                    fn=_in_func(FS, "SDMXcontract_ao_to_bas_bwd", "bgrids = MIN(ip + blksize, ngrids) - ip;",
+                                "bgrids = (thread == nthread - 1) ? ngrids - ip : blksize;")))
+    m.append(Mutant("block end not clipped (contract_grad_terms_parallel)", CI, expect="block-clip",
+                    old="const int ig1 = MIN(ig0 + ngrids_local, ngrids);", new="const int ig1 = ig0 + ngrids_local;"))
     m.append(Mutant("callback run by the parallel driver stores to a global (GTOcontract_flapl0)", FL,
                     expect="callback-global",
                     fn=_in_func(FL, "GTOcontract_flapl0", "    double *my_spline = SPLINE + l * 4 * SPLINE_SIZE;\n",
@@ -527,13 +612,6 @@ def mutants(tree):
                                 "    const int ncomp = param[TENSOR];\n    param[POS_E1] += 0;\n")))
     m.append(Mutant("delete `#pragma omp for schedule(static)` (nr_numint.c, first region)", NR,
                     expect="shared-store", old="#pragma omp for schedule(static)\n", new=""))
-    m.append(Mutant("delete the worksharing loop over thread blocks (SDMXcontract_ao_to_bas)", FS,
-                    expect="shared-store", fn=_in_func(FS, "SDMXcontract_ao_to_bas", "#pragma omp for\n", "")))
-    m.append(Mutant("`parallel for` -> `parallel` (cider_fft.c, first FFTW-configuration region)", FF,
-                    expect="shared-store", old="#pragma omp parallel for\n", new="#pragma omp parallel\n", count=3))
-    m.append(Mutant("loop variable of a parallel for declared outside and made shared by an inner loop (pbc_tools)",
-                    PB, expect="shared-store", regex=True,
-                    old=r"(#pragma omp parallel for collapse\(3\) private\()pix1, ", new=r"\1"))
     return m
 
 
